@@ -47,6 +47,33 @@ def c11_script(hist, stype, scen, variant):
     return {"scen": scen, "sock": stype, "ops": ops}
 
 
+def c12_withheld_script(stype, scen, k, after):
+    """a subscriber stalls in the middle of a message and resumes: everything that was accepted for it (far below the high-water
+    mark: nothing may be dropped) must reach it without the publisher having to publish something that matches it again"""
+    ops = []
+    for c in (1, 2):
+        ops.append({"op": "attach", "c": c, "ptype": "SUB"})
+        ops.append({"op": "psend", "c": c, "m": [hx(b"\x01t")], "note": {"k": "sub", "t": list(b"t")}})
+        if stype == "XPUB":
+            ops += [{"op": "recv"}, {"op": "recv_drop"}]
+    ops += [{"op": "settle"}, {"op": "credit", "c": 2, "k": k}]
+    msgs = []
+    for i in range(3):
+        first = b"t%d-%d-" % (scen, i) + b"w" * 1000
+        m = [hx(first), hx("tag%d.%d" % (scen, i))]
+        msgs.append(m)
+        ops.append({"op": "send", "m": m, "note": {"first": list(first[:16])}})
+    ops += [{"op": "settle"}, {"op": "credit", "c": 2}, {"op": "settle"}]
+    if after == "other-topic":
+        for j in range(5):
+            first = b"u%d-%d" % (scen, j)
+            ops.append({"op": "send", "m": [hx(first)], "note": {"first": list(first)}})
+        ops.append({"op": "settle"})
+    for m in msgs:
+        ops.append({"op": "expect_wire", "c": 2, "m": m})
+    return {"scen": scen, "sock": stype, "ops": ops, "tag": "withheld/%d/%s" % (k, after), "nojitter": True}
+
+
 def c12_script(rng, stype, scen):
     n = rng.randint(2, 6)
     ops = []
